@@ -64,7 +64,9 @@ def execute(case, ctx):
                             ctx.violate("nan-row-predict-not-an-arm", step, {"row": i, "predict": p})
                             return
                         continue
-                    best = first_argmax(e)
+                    # "the first arm IN ARM-LIST ORDER": the order of the bandit's arm list, not the order of the keys of the
+                    # returned dictionary (that they agree is C08's claim, not an assumption to build on here)
+                    best = first_argmax({a: e[a] for a in arms} if set(e) == set(arms) else e)
                     if sum(1 for v in vals if v == e[best]) > 1:
                         ctx.fired("probe.exact_tie_between_arms")
                     if p != best:
